@@ -40,6 +40,12 @@ def _run_case(spec):
     # the constraints (e.g. s_Ricci_down3 from a cached s_Riemann_down3); they
     # are requested, not judged here (C04/C05 judge them)
     pre = [[], ['s_Riemann_down3'], ['st_Riemann_down4'], ['s_RicciS', 'Tdown4']][int(rng.integers(4))]
+    if spec.get('components') and rng.random() < 0.6:
+        # inputs given component by component and a constraint asked first:
+        # nothing has assembled the tensors (betaup3, gammadown3, ...) yet
+        first = ['Hamiltonian', 'Momentumup3', 'Momentumdown3'][int(rng.integers(3))]
+        keys = [first] + [k for k in keys if k != first]
+        pre = []
     for g in grids:
         ex, rel = c04.evaluate(spec, g, [])
         x, y, z = harness.coords(g['n'], g['lo'], g['d'])
